@@ -102,7 +102,7 @@ theorem merge_iff_spreadFree (s : Schema) (d : Document) (hq : s.queryType.isSom
   -- the spec, on the same visited lists
   have hN : docDepth d + 2 ≤ nestFuelOf d := by
     unfold nestFuelOf
-    have : docDepth d + 1 ≤ (docDepth d + 1) * (d.fragments.length + 1) := Nat.le_mul_of_pos_right _ (by omega)
+    have : docDepth d + 1 ≤ (docDepth d + 1) * (d.fragments.length + 2) := Nat.le_mul_of_pos_right _ (by omega)
     omega
   have hvisF : ∀ sel env, (Ev.enter (.selectionSet sel), env) ∈ walkOf s d →
       specFields s d (spreadFuelOf d) env.parent sel = specFieldsWith s (fun _ => []) env.parent sel ∧
